@@ -497,7 +497,7 @@ def _reaches_registry(prog, uid):
     from analysis import LOCK_CALLS, guard_class
     for bid in prog.reach([uid]):
         for c in prog.by_id[bid].live_calls:
-            if c.callee in LOCK_CALLS and guard_class(c.term['dest']['ty']) == 'REGISTRY':
+            if (c.callee in LOCK_CALLS or (c.ruid is not None and c.ruid in getattr(prog, 'acq_helpers', ()))) and guard_class(c.term['dest']['ty']) == 'REGISTRY':
                 return True
     return False
 
